@@ -127,7 +127,7 @@ pub fn case(mut idx: u64, max_len: u32) -> StoreCase {
     }
     let (shards, cap) = SHARD_VARIANTS[(idx % SHARD_VARIANTS.len() as u64) as usize];
     idx /= SHARD_VARIANTS.len() as u64;
-    let cfg = Cfg { shards, cap, none_mod: 3, post_mod: 4, default_status: 0 };
+    let cfg = Cfg { shards, cap, none_mod: 3, post_mod: 4, default_status: 0 , group_hook: false};
     let mut ops = vec![
         Op::AddTrack(spec(0, &[(0, 1, 0.5), (0, 2, 0.7)], 0, 0, false)),
         Op::AddTrack(TrackSpec { absorbed: vec![100], ..spec(1, &[(0, 3, 0.2), (1, 4, 0.9)], 0, 1, false) }),
